@@ -7,7 +7,14 @@ variables children-first, root pair, then the user constraints' variables; proof
 what setupVarsAndConstraints / recGenerateClusterVariablesAndConstraints really build (harness mode `vars`);
 V: extracted checkers on makeFeasible()+run() results with overlap avoidance and cluster hierarchies, including the family
 'clusters+cc' (hierarchies with padding/margins combined with user alignments / separations / distributions in both dimensions that
-admit a non-overlapping layout - witnessed by construction)."""
+admit a non-overlapping layout - witnessed by construction) and the family 'fixedrect': clusters whose boundary is an existing rectangle
+(RectangularCluster(rectIndex)): model gen_fixed_rect of RectangularCluster::generateFixedRectangleConstraints (cluster.cpp:300-329) in
+ContainmentModel.v, theorems fixed_rect_cluster_sound / members_inside_fixed_rect (+ _eps, _2d, the refutation of the list without
+the last equality) in Containment.v, fixed_rect_constraints_bind in VarLayout.v; tied by the `gen` correspondence (F lines: the idle
+SeparationConstraints expanded per dimension) and the `vars` correspondence (F lines: the idle SeparationConstraints found among
+ConstrainedFDLayout::extraConstraints, by creator tag); V: container rectangles with children pulled through each of the four walls
+by short edges to outside nodes, nested variants, checked by the extracted members_inside_rectb (every member inside the container
+rectangle inflated by the padding) plus the ordinary pair / member-box obligations (container vs. its own contents exempt)."""
 import os, json, math
 from fractions import Fraction
 from vlib import common as C
@@ -73,7 +80,9 @@ def gen_case(rng, stream):
         mem = [rng.below(n) for _ in range(rng.range(0, 4))]
         ch = [[n + 6 + 2 * k] + [rng.choice([0, 16, 32, 8]) for _ in range(4)] for k in range(rng.below(3))]
         conts.append([cv, pad, mem, ch])
-    return {'n': n, 'rects': rects, 'groups': groups, 'cex': cex, 'ops': ops, 'nv': nv, 'conts': conts, 'stream': stream}
+    # fixed-rectangle clusters: RectangularCluster(ri) with clusterVarId cv -> generateFixedRectangleConstraints
+    fixed = [[n + 2 * rng.below(4) + rng.below(2), rng.below(n)] for _ in range(rng.choice([0, 1, 1, 2]))]
+    return {'n': n, 'rects': rects, 'groups': groups, 'cex': cex, 'ops': ops, 'nv': nv, 'conts': conts, 'fixed': fixed, 'stream': stream}
 
 
 def case_line(c):
@@ -97,6 +106,10 @@ def case_line(c):
     t.append(len(c['conts']))
     for cv, pad, mem, ch in c['conts']:
         t += [cv] + pad + [len(mem)] + mem + [len(ch)] + [v for x in ch for v in x]
+    fixed = c.get('fixed', [])                  # older corpus entries have no fixed-rectangle section
+    t.append(len(fixed))
+    for cv, ri in fixed:
+        t += [cv, ri]
     return ' '.join(str(int(x)) for x in t)
 
 
@@ -152,7 +165,7 @@ def correspondence(rng, ncases, cpp, ml):
     rc2, o2, e2, _ = C.sh([ml, 'gen'], input='\n'.join(lines) + '\n', timeout=900)
     o1 = [l for l in o1.split('\n') if l.strip()]
     o2 = [l for l in o2.split('\n') if l.strip()]
-    expected = sum(2 * (1 + len(c['conts'])) for c in cases)
+    expected = sum(2 * (1 + len(c['conts']) + len(c.get('fixed', []))) for c in cases)
     diffs, hist, samples, ntriv = [], {}, [], 0
     if rc1 != 0 or rc2 != 0 or len(o1) != expected or len(o2) != expected:
         diffs.append({'what': 'harness or model driver failed', 'rc_cpp': rc1, 'rc_model': rc2, 'stderr_cpp': e1[-1500:], 'stderr_model': e2[-1500:],
@@ -160,7 +173,7 @@ def correspondence(rng, ncases, cpp, ml):
         return cases, diffs, hist, ntriv, samples
     p = 0
     for i, c in enumerate(cases):
-        k = 2 * (1 + len(c['conts']))
+        k = 2 * (1 + len(c['conts']) + len(c.get('fixed', [])))
         for j in range(k):
             a, b = parse_cs(o1[p + j]), parse_cs(o2[p + j])
             kind = a[0] + ':' + a[1]
@@ -173,7 +186,7 @@ def correspondence(rng, ncases, cpp, ml):
             if a[1] == 'OK' and a[2]:
                 ntriv += 1
             if a != b:
-                diffs.append({'what': 'generated non-overlap / containment constraints differ between the library and the model',
+                diffs.append({'what': 'generated non-overlap / containment / fixed-rectangle constraints differ between the library and the model',
                               'case': c, 'output_line': j, 'implementation': o1[p + j], 'model': o2[p + j],
                               'replay': 'echo "%s" | <c08_no harness> gen' % lines[i]})
         if i < 3:
@@ -185,18 +198,20 @@ def correspondence(rng, ncases, cpp, ml):
 # ----------------------------------------------------------------------------------------------- variable layout (C)
 def parse_vars_line(line):
     t = line.split()
-    if not t or t[0] not in ('V', 'U', 'K') or len(t) < 2 or not t[1].lstrip('-').isdigit():
+    if not t or t[0] not in ('V', 'U', 'K', 'F') or len(t) < 2 or not t[1].lstrip('-').isdigit():
         return ('BAD', line.strip())
     m = int(t[1])
     if t[0] == 'V':
         return ('V', t[2:])                                   # exact order: it IS the index layout
-    w = 4 if t[0] == 'U' else 3
+    w = 4 if t[0] in ('U', 'F') else 3
     body = t[2:]
     if len(body) != w * m:
         return ('BAD', line.strip())
     rows = []
     for k in range(m):
         r = body[w * k:w * k + w]
+        if w == 4 and not r[3].lstrip('-').isdigit():
+            return ('BAD', line.strip())
         rows.append((r[0], r[1], fr(r[2])) + ((int(r[3]),) if w == 4 else ()))
     return (t[0], sorted(rows))
 
@@ -204,9 +219,12 @@ def parse_vars_line(line):
 def varlayout_correspondence(cases, cpp, ml):
     """exact correspondence for the solver-variable index layout of one dimension (Cola/VarLayoutModel.v vs colafd.cpp
     setupVarsAndConstraints / recGenerateClusterVariablesAndConstraints / Cluster::createVars): who created each variable, and
-    which variables (by creator) the user constraints and the stored-id cluster containment constraints end up on."""
+    which variables (by creator) the user constraints, the stored-id cluster containment constraints and the equalities of
+    fixed-rectangle clusters (generateFixedRectangleConstraints) end up on."""
     lines = [layout_line(c) for c in cases]
-    stats = {'cases': len(cases), 'lines_compared': 0, 'hierarchy_and_cc_variables_in_both_dims': 0, 'disagreements': 0}
+    stats = {'cases': len(cases), 'lines_compared': 0, 'hierarchy_and_cc_variables_in_both_dims': 0, 'disagreements': 0,
+             'fixed_rect_constraints_compared': 0}
+    NL = 8
     diffs = []
     if not cases:
         return diffs, stats
@@ -214,22 +232,25 @@ def varlayout_correspondence(cases, cpp, ml):
     rc2, o2, e2, _ = C.sh([ml, 'vars'], input='\n'.join(lines) + '\n', timeout=900)
     o1 = [l for l in o1.split('\n') if l.strip()]
     o2 = [l for l in o2.split('\n') if l.strip()]
-    if rc1 != 0 or rc2 != 0 or len(o1) != 6 * len(cases) or len(o2) != 6 * len(cases):
+    if rc1 != 0 or rc2 != 0 or len(o1) != NL * len(cases) or len(o2) != NL * len(cases):
         diffs.append({'what': 'variable-layout harness or model driver failed', 'rc_cpp': rc1, 'rc_model': rc2, 'stderr_cpp': e1[-1500:],
-                      'stderr_model': e2[-1500:], 'lines_cpp': len(o1), 'lines_model': len(o2), 'expected_lines': 6 * len(cases)})
+                      'stderr_model': e2[-1500:], 'lines_cpp': len(o1), 'lines_model': len(o2), 'expected_lines': NL * len(cases)})
         stats['disagreements'] = 1
         return diffs, stats
     for i, c in enumerate(cases):
         both = 0
-        for j in range(6):
-            a, b = parse_vars_line(o1[6 * i + j]), parse_vars_line(o2[6 * i + j])
+        for j in range(NL):
+            a, b = parse_vars_line(o1[NL * i + j]), parse_vars_line(o2[NL * i + j])
             stats['lines_compared'] += 1
+            if a[0] == 'F':
+                stats['fixed_rect_constraints_compared'] += len(a[1])
             if a[0] == 'V' and c['clusters'] and any(x.startswith('A') for x in a[1]):
                 both += 1
             if a != b:
-                diffs.append({'what': 'variable index layout / constraint endpoints differ between colafd.cpp (setupVarsAndConstraints, stored cluster '
-                                      'variable ids) and the model (VarLayoutModel.v)', 'dim': 'XY'[j // 3], 'line': 'VUK'[j % 3],
-                              'implementation': o1[6 * i + j][:600], 'model': o2[6 * i + j][:600], 'case': c,
+                diffs.append({'what': 'variable index layout / constraint endpoints / fixed-rectangle equalities differ between colafd.cpp '
+                                      '(setupVarsAndConstraints, stored cluster variable ids, generateFixedRectangleConstraints) and the model '
+                                      '(VarLayoutModel.v)', 'dim': 'XY'[j // 4], 'line': 'VUKF'[j % 4],
+                              'implementation': o1[NL * i + j][:600], 'model': o2[NL * i + j][:600], 'case': c,
                               'replay': 'echo "%s" | <c08_no harness> vars' % lines[i]})
         if both == 2:
             stats['hierarchy_and_cc_variables_in_both_dims'] += 1
@@ -467,6 +488,97 @@ def gen_cluster_cc(rng, idx):
     return c
 
 
+def gen_fixedrect(rng, idx):
+    """family 'fixedrect': a cluster whose boundary is an existing rectangle (RectangularCluster(rectIndex), cluster.cpp:224): the
+    container rectangle with 1-3 children inside it, 1-3 outside nodes on ONE side of the container (left / right / above / below in
+    turn, scenes also transposed), every outside node joined to a child by an edge with a SHORT ideal length, so the child is pulled
+    towards the outside node through the container wall.  Variants: the fixed-rectangle cluster directly under the root, inside a
+    plain cluster, with a plain cluster inside it, and a fixed-rectangle cluster inside a fixed-rectangle cluster; with and without
+    padding / margins.  Client protocol as in cola/libcola/tests/rectclustershapecontainment.cpp: the container rectangle is not
+    added as a child node of anything (RectangularCluster::countContainedNodes counts it)."""
+    side = idx % 4                                         # 0 min-X, 1 max-X, 2 min-Y, 3 max-Y
+    variant = ['plain', 'plain', 'in_plain', 'plain_inside', 'fixed_in_fixed'][(idx // 4) % 5]
+    pad = rng.choice([0, 0, 80, 160])
+    big = variant == 'fixed_in_fixed'
+    W, H = rng.range(12, 16) * 256 if big else rng.range(8, 14) * 256, rng.range(12, 16) * 256 if big else rng.range(8, 14) * 256
+    cx0, cy0 = rng.range(-20, 20) * 16, rng.range(-20, 20) * 16
+    rects = [[cx0 - W // 2, cx0 + W // 2, cy0 - H // 2, cy0 + H // 2]]
+    box = (cx0, cy0, W, H)                                  # where the children start
+    clusters = [{'parent': -1, 'rect': 0, 'padding': [pad] * 4, 'margin': [rng.choice([0, 0, 80])] * 4, 'nodes': []}]
+    fx = 0                                                  # cluster that owns the children
+    if variant == 'fixed_in_fixed':
+        w2, h2 = rng.range(5, 7) * 256, rng.range(5, 7) * 256
+        ix, iy = cx0 + rng.range(-8, 8) * 16, cy0 + rng.range(-8, 8) * 16
+        rects.append([ix - w2 // 2, ix + w2 // 2, iy - h2 // 2, iy + h2 // 2])
+        clusters.append({'parent': 0, 'rect': 1, 'padding': [rng.choice([0, 80])] * 4, 'margin': [rng.choice([0, 80])] * 4, 'nodes': []})
+        fx = 1
+        box = (ix, iy, w2, h2)
+    start = rng.choice(['inside', 'inside', 'inside', 'wall'])
+    nch = rng.range(1, 3)
+    children = []
+    for _ in range(nch):
+        w, h = rng.range(1, 3) * 160, rng.range(1, 3) * 160
+        bx, by, bw, bh = box
+        rx, ry = max(0, (bw - w) // 2 - pad - 16) // 16, max(0, (bh - h) // 2 - pad - 16) // 16
+        cx, cy = bx + rng.range(-rx, rx) * 16, by + rng.range(-ry, ry) * 16
+        if start == 'wall' and rng.chance(1, 2):
+            # starts across the wall of the side the outside nodes are on
+            if side < 2:
+                cx = bx + (bw // 2) * (1 if side == 1 else -1)
+            else:
+                cy = by + (bh // 2) * (1 if side == 3 else -1)
+        children.append(len(rects))
+        rects.append([cx - w // 2, cx + w // 2, cy - h // 2, cy + h // 2])
+    nout = rng.range(1, 3)
+    outside = []
+    for i in range(nout):
+        w, h = rng.range(1, 3) * 160, rng.range(1, 3) * 160
+        ch = rects[children[i % nch]]
+        gap = rng.choice([0, 160, 160, 640])
+        jit = rng.range(-2, 2) * 80
+        if side < 2:
+            cy = (ch[2] + ch[3]) // 2 + jit
+            cx = cx0 - W // 2 - w // 2 - gap if side == 0 else cx0 + W // 2 + w // 2 + gap
+        else:
+            cx = (ch[0] + ch[1]) // 2 + jit
+            cy = cy0 - H // 2 - h // 2 - gap if side == 2 else cy0 + H // 2 + h // 2 + gap
+        outside.append(len(rects))
+        rects.append([cx - w // 2, cx + w // 2, cy - h // 2, cy + h // 2])
+    clusters[fx]['nodes'] = sorted(children)
+    if variant == 'fixed_in_fixed' and rng.chance(1, 2):
+        # the outer container gets a child of its own, next to the inner container
+        w, h = 160, 160
+        v = len(rects)
+        rects.append([cx0 - W // 2 + 32, cx0 - W // 2 + 32 + w, cy0 - H // 2 + 32, cy0 - H // 2 + 32 + h])
+        clusters[0]['nodes'] = [v]
+    if variant == 'plain_inside':
+        # a plain cluster inside the fixed-rectangle cluster takes (some of) the children
+        k = rng.range(1, nch)
+        inner = sorted(rng.shuffle(list(children))[:k])
+        clusters[0]['nodes'] = sorted(set(children) - set(inner))
+        clusters.append({'parent': 0, 'rect': -1, 'padding': [rng.choice([0, 32, 80])] * 4, 'margin': [rng.choice([0, 32, 80])] * 4, 'nodes': inner})
+    if variant == 'in_plain':
+        # the fixed-rectangle cluster lives inside a plain cluster, together with one more node; the outside nodes are root level
+        # nodes or (sometimes) siblings of the container inside the plain cluster
+        v = len(rects)
+        w, h = rng.range(1, 3) * 160, rng.range(1, 3) * 160
+        rects.append([cx0 - W // 2 - w - 64, cx0 - W // 2 - 64, cy0 - h // 2, cy0 + h // 2] if side != 0 else
+                     [cx0 + W // 2 + 64, cx0 + W // 2 + 64 + w, cy0 - h // 2, cy0 + h // 2])
+        mem = [v] + (outside if rng.chance(1, 3) else [])
+        clusters = [{'parent': -1, 'rect': -1, 'padding': [rng.choice([0, 32, 80])] * 4, 'margin': [rng.choice([0, 32, 80])] * 4, 'nodes': sorted(mem)},
+                    dict(clusters[0], parent=0)]
+    edges = [[children[i % nch], o] for i, o in enumerate(outside)]
+    if nch > 1 and rng.chance(1, 3):
+        edges.append([children[0], children[1]])
+    transposed = rng.chance(1, 2)
+    if transposed:
+        rects = [[r[2], r[3], r[0], r[1]] for r in rects]
+        side = [2, 3, 0, 1][side]
+    return {'n': len(rects), 'rects': rects, 'groups': [], 'clusters': clusters, 'ccs': [], 'edges': edges,
+            'ideal': rng.choice([160, 160, 320]), 'mode': 0, 'kind': 'fixedrect', 'variant': variant,
+            'side': ['min-X', 'max-X', 'min-Y', 'max-Y'][side], 'transposed': transposed, 'start': start, 'pad': pad}
+
+
 def layout_line(c):
     t = [c['n']] + [v for r in c['rects'] for v in r]
     t.append(len(c['groups']))
@@ -474,7 +586,7 @@ def layout_line(c):
         t += [len(g)] + g
     t.append(len(c['clusters']))
     for cl in c['clusters']:
-        t += [cl['parent']] + cl['padding'] + cl['margin'] + [len(cl['nodes'])] + cl['nodes']
+        t += [cl['parent'], cl.get('rect', -1)] + cl['padding'] + cl['margin'] + [len(cl['nodes'])] + cl['nodes']
     t.append(len(c['ccs']))
     for cc in c['ccs']:
         if cc['code'] == 1:
@@ -511,12 +623,72 @@ def parse_layout(line, n):
 
 
 def descendants(c, k):
-    """all nodes inside cluster k (its own and those of its descendant clusters)"""
+    """all nodes inside cluster k: its own, those of its descendant clusters, and the container rectangles of descendant
+    fixed-rectangle clusters (a fixed-rectangle cluster is a shape of its parent's level, colafd.cpp:505-511); NOT k's own
+    container rectangle"""
     s = set(c['clusters'][k]['nodes'])
     for j, cl in enumerate(c['clusters']):
         if cl['parent'] == k:
             s |= descendants(c, j)
+            if cl.get('rect', -1) >= 0:
+                s.add(cl['rect'])
     return s
+
+
+def containers_around(c, k):
+    """container rectangles of cluster k and of its ancestors (fixed-rectangle clusters only)"""
+    out = set()
+    while k >= 0:
+        if c['clusters'][k].get('rect', -1) >= 0:
+            out.add(c['clusters'][k]['rect'])
+        k = c['clusters'][k]['parent']
+    return out
+
+
+def stale_bounds_clusters(c):
+    """plain clusters below a fixed-rectangle cluster: RectangularCluster::computeBoundingRect (cluster.cpp:436-447) takes the
+    container rectangle for a fixed-rectangle cluster and does not descend, so the `bounds` of every cluster below it are never
+    computed (they stay the invalid default Rectangle) and the non-overlap pair loop, which tests and orders cluster pairs by their
+    bounds, generates nothing for them (KNOWN_FINDINGS fixedrect_child_cluster_bounds_stale)"""
+    out = []
+    for k, cl in enumerate(c['clusters']):
+        p, under = cl['parent'], False
+        while p >= 0:
+            under = under or c['clusters'][p].get('rect', -1) >= 0
+            p = c['clusters'][p]['parent']
+        if under and cl.get('rect', -1) < 0:
+            out.append(k)
+    return out
+
+
+def stale_bounds_explains(c, kind, a, b):
+    """classifier for the known finding: the failing obligation is one that only the non-overlap constraint between a stale-bounds
+    cluster P and an item of P's own level (a node of P's parent, or a sibling cluster of P with what is inside it) would enforce.
+    kind 'pair': nodes a, b; 'siblings': clusters a, b; 'foreign-node': cluster a, node b.  Escapes from a container rectangle and
+    overlaps with anything outside P's parent are never explained by it."""
+    stale = stale_bounds_clusters(c)
+    if kind == 'siblings':
+        return a in stale or b in stale
+    for P in stale:
+        inP = descendants(c, P)
+        level = descendants(c, c['clusters'][P]['parent'])
+        if kind == 'foreign-node':
+            if a == P and b in level and b not in inP:
+                return True
+        else:
+            for x, y in ((a, b), (b, a)):
+                if x in inP and y not in inP and y in level:
+                    return True
+    return False
+
+
+def fixed_obligations(c):
+    """fixed-rectangle clusters: (container rectangle, padding, everything that must lie inside it)"""
+    out = []
+    for k, cl in enumerate(c['clusters']):
+        if cl.get('rect', -1) >= 0:
+            out.append((k, cl['rect'], [max(0, p) for p in cl['padding']], sorted(descendants(c, k) - {cl['rect']})))
+    return out
 
 
 def obligations(c):
@@ -528,32 +700,42 @@ def obligations(c):
         for i in range(len(g)):
             for j in range(i + 1, len(g)):
                 exempt.add((g[i], g[j]))
-    pairs = [(i, j) for i in range(n) for j in range(i + 1, n) if (i, j) not in exempt]
-    boxes = []
     ncl = len(c['clusters'])
     desc = [descendants(c, k) for k in range(ncl)]
+    # a container rectangle and what lies inside it overlap by design ("container")
+    for k, cl in enumerate(c['clusters']):
+        r = cl.get('rect', -1)
+        if r >= 0:
+            for v in desc[k]:
+                if v != r:
+                    exempt.add((min(r, v), max(r, v)))
+    pairs = [(i, j) for i in range(n) for j in range(i + 1, n) if (i, j) not in exempt]
+    boxes = []
     for a in range(ncl):
         for b in range(a + 1, ncl):
             if c['clusters'][a]['parent'] == c['clusters'][b]['parent'] and desc[a] and desc[b]:
                 boxes.append(('siblings', a, b, sorted(desc[a]), sorted(desc[b])))
     for a in range(ncl):
         for v in range(n):
-            if v not in desc[a] and desc[a]:
+            if v not in desc[a] and desc[a] and v not in containers_around(c, a):
                 boxes.append(('foreign-node', a, v, sorted(desc[a]), [v]))
     return pairs, boxes
 
 
-def layouts(rng, ncases, cpp, ml, ncc=0):
+def layouts(rng, ncases, cpp, ml, ncc=0, nfix=0):
     cases = [gen_layout(rng.fork(), i) for i in range(ncases)]
     rr = rng.fork()
     cases += [gen_cluster_cc(rr.fork(), i) for i in range(ncc)]
+    rf = rng.fork()
+    off = rf.below(20)                          # so that every (side, variant) combination meets different sizes over the seeds
+    cases += [gen_fixedrect(rf.fork(), off + i) for i in range(nfix)]
     for f in sorted(os.listdir(os.path.join(C.VERIF, 'corpus'))):
         if f.startswith('c08_layout_') and f.endswith('.json'):
             cases.insert(0, json.load(open(os.path.join(C.VERIF, 'corpus', f))))
     lines = [layout_line(c) for c in cases]
     rc, out, err = run_restarting(cpp, ['layout', '8'], lines)
     stats = {'layouts': 0, 'in_domain': 0, 'reported_unsat_skipped': 0, 'hangs': 0, 'exceptions': 0, 'pairs_checked': 0, 'boxes_checked': 0,
-             'by_kind': {}, 'with_clusters': 0}
+             'fixed_rect_clusters_checked': 0, 'by_kind': {}, 'with_clusters': 0}
     viols = []
     if rc != 0 or len(out) < len(cases):
         done = len(out)
@@ -599,7 +781,17 @@ def layouts(rng, ncases, cpp, ml, ncc=0):
                 fam['by_constraint_kind'][k] = fam['by_constraint_kind'].get(k, 0) + 1
             if all(any(cc['code'] == 3 and cc['d'] == d for cc in c['ccs']) for d in (0, 1)):
                 fam['alignment_variables_in_both_dims'] += 1
+        if c['kind'] == 'fixedrect':
+            fam = stats.setdefault('fixedrect_family', {'in_domain': 0, 'by_side': {}, 'by_variant': {}, 'transposed': 0, 'with_padding': 0,
+                                                        'child_starts_across_wall': 0})
+            fam['in_domain'] += 1
+            for key, f in (('by_side', 'side'), ('by_variant', 'variant')):
+                fam[key][c.get(f, '?')] = fam[key].get(c.get(f, '?'), 0) + 1
+            fam['transposed'] += 1 if c.get('transposed') else 0
+            fam['with_padding'] += 1 if c.get('pad') else 0
+            fam['child_starts_across_wall'] += 1 if c.get('start') == 'wall' else 0
         pairs, boxes = obligations(c)
+        fixed = fixed_obligations(c)
         t = [TOL.numerator, TOL.denominator, GRID, c['n']]
         for q in r['R']:
             cx, cy, w, h = q
@@ -610,7 +802,10 @@ def layouts(rng, ncases, cpp, ml, ncc=0):
         t.append(len(boxes))
         for _, _, _, A, B in boxes:
             t += [len(A)] + A + [len(B)] + B
-        chk.append(' '.join(str(x) for x in t)); idx.append(i); obl.append((pairs, boxes, r))
+        t.append(len(fixed))
+        for _, ci, pd, mem in fixed:
+            t += [ci] + [p * (GRID // 16) for p in pd] + [len(mem)] + mem
+        chk.append(' '.join(str(x) for x in t)); idx.append(i); obl.append((pairs, boxes, r, fixed))
     if chk:
         rc2, o2, e2, _ = C.sh([ml, 'check'], input='\n'.join(chk) + '\n', timeout=900)
         o2 = [l for l in o2.split('\n') if l.strip()]
@@ -619,24 +814,40 @@ def layouts(rng, ncases, cpp, ml, ncc=0):
         else:
             for k, i in enumerate(idx):
                 c = cases[i]
-                pairs, boxes, r = obl[k]
+                pairs, boxes, r, fixed = obl[k]
                 parts = o2[k].split()
-                pb, bb = parts[0][1:], parts[1][1:]
+                pb, bb, fb = parts[0][1:], parts[1][1:], parts[2][1:]
                 stats['pairs_checked'] += len(pairs)
                 stats['boxes_checked'] += len(boxes)
-                for m, (a, b) in enumerate(pairs):
-                    if m < len(pb) and pb[m] != '1':
-                        viols.append({'what': 'two non-exempt node rectangles overlap by more than 1e-3 in both dimensions after makeFeasible()+run(), nothing reported unsatisfiable',
-                                      'nodes': [a, b], 'final': [r['R'][a], r['R'][b]], 'final_all': r['R'], 'case': c,
+                stats['fixed_rect_clusters_checked'] += len(fixed)
+                for m, (kc, ci, pd, mem) in enumerate(fixed):
+                    if m >= len(fb) or fb[m] != '1':
+                        viols.append({'what': 'a member of a fixed-rectangle cluster (RectangularCluster(rectIndex)) is not inside the container rectangle '
+                                              '(inflated by the padding, tolerance 1e-3) after makeFeasible()+run(), nothing reported unsatisfiable',
+                                      'cluster': kc, 'container_rectangle': ci, 'padding_16ths': pd, 'members': mem,
+                                      'final_container': r['R'][ci], 'final_members': [r['R'][v] for v in mem], 'final_all': r['R'], 'case': c,
                                       'replay': 'echo "%s" | <c08_no harness> layout' % lines[i]})
                         break
-                for m, bx in enumerate(boxes):
-                    if m < len(bb) and bb[m] != '1':
-                        viols.append({'what': ('member bounding boxes of two sibling clusters overlap' if bx[0] == 'siblings' else
-                                               'a node lies inside the member bounding box of a cluster it does not belong to') + ' (by more than 1e-3 in both dimensions)',
-                                      'kind': bx[0], 'cluster': bx[1], 'other': bx[2], 'members': bx[3], 'other_members': bx[4],
-                                      'final_all': r['R'], 'case': c, 'replay': 'echo "%s" | <c08_no harness> layout' % lines[i]})
-                        break
+                # per case: the first failing obligation that the known finding does not explain, else the first explained one
+                badp = [(a, b) for m, (a, b) in enumerate(pairs) if m >= len(pb) or pb[m] != '1']
+                badp.sort(key=lambda ab: stale_bounds_explains(c, 'pair', ab[0], ab[1]))
+                for a, b in badp[:1]:
+                    v = {'what': 'two non-exempt node rectangles overlap by more than 1e-3 in both dimensions after makeFeasible()+run(), nothing reported unsatisfiable',
+                         'nodes': [a, b], 'final': [r['R'][a], r['R'][b]], 'final_all': r['R'], 'case': c,
+                         'replay': 'echo "%s" | <c08_no harness> layout' % lines[i]}
+                    if stale_bounds_explains(c, 'pair', a, b):
+                        v['fingerprint'] = 'fixedrect_child_cluster_bounds_stale'
+                    viols.append(v)
+                badb = [bx for m, bx in enumerate(boxes) if m >= len(bb) or bb[m] != '1']
+                badb.sort(key=lambda bx: stale_bounds_explains(c, bx[0], bx[1], bx[2]))
+                for bx in badb[:1]:
+                    v = {'what': ('member bounding boxes of two sibling clusters overlap' if bx[0] == 'siblings' else
+                                  'a node lies inside the member bounding box of a cluster it does not belong to') + ' (by more than 1e-3 in both dimensions)',
+                         'kind': bx[0], 'cluster': bx[1], 'other': bx[2], 'members': bx[3], 'other_members': bx[4],
+                         'final_all': r['R'], 'case': c, 'replay': 'echo "%s" | <c08_no harness> layout' % lines[i]}
+                    if stale_bounds_explains(c, bx[0], bx[1], bx[2]):
+                        v['fingerprint'] = 'fixedrect_child_cluster_bounds_stale'
+                    viols.append(v)
     return cases, viols, stats
 
 
@@ -654,15 +865,24 @@ def run(tier):
         'the hierarchy with its padding and margins, so they admit a non-overlapping layout; runs that report a constraint unsatisfiable are '
         'outside the domain as everywhere',
         'variable layout correspondence: the cluster tree handed to the model is built by the OCaml driver from the parent indices in the order '
-        'of addChildCluster calls; variables are identified by object identity in the harness (Cluster::vXMin.., AlignmentConstraint::variable)']
+        'of addChildCluster calls; variables are identified by object identity in the harness (Cluster::vXMin.., AlignmentConstraint::variable)',
+        'family fixedrect: client protocol of cola/libcola/tests/rectclustershapecontainment.cpp (the container rectangle is not added as a '
+        'child node of any cluster); a container rectangle and everything inside its cluster are exempt from the pair obligation, the '
+        'container is not a foreign node for its own cluster or for clusters nested in it, the container rectangles of nested fixed-rectangle '
+        'clusters count as members of the enclosing clusters; members_inside_fixed_rect needs the solver to satisfy the generated '
+        'equalities (C01) - validated on the real result by members_inside_rectb (tolerance as above); known HEAD defect '
+        'fixedrect_child_cluster_bounds_stale (KNOWN_FINDINGS.txt) is classified by a predicate, escapes from a container are never '
+        'attributed to it']
     cpp = C.build_harness('c08_no', ['libcola', 'libvpsc'], 'exc')
     ml = C.ocaml_build('c08model', 'C08model.v', 'c08_driver.ml', 'c08_model.ml')
     ncorr = 1500 if tier == 'quick' else 12000
     nlay = 400 if tier == 'quick' else 3000
     ncc = 250 if tier == 'quick' else 2000
+    nfix = 400 if tier == 'quick' else 3000
     cases, diffs, hist, ntriv, samples = correspondence(rng.fork(), ncorr, cpp, ml)
-    lcases, viols, stats = layouts(rng.fork(), nlay, cpp, ml, ncc=ncc)
-    vdiffs, vstats = varlayout_correspondence([c for c in lcases if c.get('kind') in ('clusters', 'clusters+cc') or c.get('ccs')], cpp, ml)
+    lcases, viols, stats = layouts(rng.fork(), nlay, cpp, ml, ncc=ncc, nfix=nfix)
+    vdiffs, vstats = varlayout_correspondence([c for c in lcases if c.get('kind') in ('clusters', 'clusters+cc', 'fixedrect') or c.get('ccs')
+                                               or c.get('clusters')], cpp, ml)
     diffs = diffs + vdiffs
     real = 0
     for v in viols:
@@ -721,14 +941,19 @@ META = {
                 'every run: a projection onto the constraints generated from the current rectangles (satisfied to 1e-10) leaves every listed pair '
                 'separated by >= -0.0005 in x or y, hence that is an invariant of any sequence of projections in any axis order and excludes overlaps '
                 '> 1e-3 in both dimensions; containment constraints <-> member inside the padded cluster box; containment + generated cluster/cluster '
-                '(node/cluster) separation => sibling member boxes disjoint / non-member outside. PARTIAL: makeFeasible() establishing the invariant, '
+                '(node/cluster) separation => sibling member boxes disjoint / non-member outside; fixed-rectangle clusters '
+                '(RectangularCluster(rectIndex)): the generated equalities <-> the cluster box IS the container rectangle '
+                '(C08_fixed_rect_cluster_sound), hence with the containment constraints every member inflated by the padding lies inside the '
+                'container rectangle (C08_members_inside_fixed_rect, _eps, _2d), which fails without the last equality '
+                '(C08_fixed_rect_weak_max_refuted); the equalities bind the cluster\'s own boundary variables and the rectangle\'s variable in '
+                'the run-time variable list (C08_fixed_rect_constraints_bind). PARTIAL: makeFeasible() establishing the invariant, '
                 'the solver satisfying the constraints (C01) without flagging any, and the existence of a separating constraint for every sibling '
                 'cluster pair in the final layout are validated on real makeFeasible()+run() results by extracted checkers proved equivalent to the '
                 'declarative conditions. Variable index layout: the cluster variable ids stored in the containment constraints point at that cluster\'s '
                 'own boundary variables in the variable list built before every projection, for any user constraints in either dimension '
                 '(C08_stored_id_points_at_cluster; model tied by the `vars` correspondence).',
         'design_ref': 'DESIGN.md 5.8'},
-    'level_note': 'Trusted: Coq kernel; hand-written models NonOverlapModel.v / ContainmentModel.v / VarLayoutModel.v (tie = exact comparison of generated constraint multisets with '
+    'level_note': 'Trusted: Coq kernel; hand-written models NonOverlapModel.v / ContainmentModel.v / VarLayoutModel.v (tie = exact comparison of generated constraint multisets - non-overlap, containment, fixed-rectangle equalities - with '
                   'the compiled code on random dyadic rectangle sets, groups, exemptions, clusters, every run); extraction, OCaml/C++/Python drivers; '
                   'Rectangle borders 0; exact-rational model of binary64. No axioms. Domain of the V-run as in the property: nothing reported unsatisfiable.',
     'technique': 'Coq proof over hand-written models + exact generator correspondence + extracted verified checkers on real layouts',
